@@ -5,6 +5,8 @@ mod api;
 mod termconf;
 mod show;
 mod est;
+mod tpl;
+mod stylebuild;
 
 use std::io::{BufRead, BufWriter, Write};
 
@@ -57,6 +59,8 @@ fn main() {
                 est::run_history(&hist, &mut out);
             }
         }
+        "tpl" => stylebuild::run_forked(input, &mut out, tpl::run_history, tpl::abort_rec),
+        "stylebuild" => stylebuild::run_all(input, &mut out),
         "show" => {
             clock::enable();
             for line in input.lines() {
